@@ -450,7 +450,7 @@ def native_replay(unit, udir, g, inputs, work):
         return None
     exe = os.path.join(work, 'replay_%s' % g['name'])
     srcs = [os.path.join(udir, rp['driver'])] + [os.path.join(REPO, s) for s in rp.get('repo_sources', [])]
-    cmd = ['g++'] + BASE_CXXFLAGS + rp.get('cxxflags', []) + ['-I' + udir, '-I' + os.path.join(VERIF, 'units', 'common')] + srcs + ['-o', exe, '-lpthread']
+    cmd = ['g++'] + BASE_CXXFLAGS + rp.get('cxxflags', []) + ['-I' + os.path.join(work, 'frag'), '-I' + udir, '-I' + os.path.join(VERIF, 'units', 'common')] + srcs + ['-o', exe, '-lpthread']
     rc, out, err, dt = sh(cmd, timeout=600, mem=False)
     if rc != 0:
         return {'built': False, 'cmd': ' '.join(cmd), 'output': (err + out)[-2000:], 'reproduced': False}
@@ -710,6 +710,11 @@ def replay_file(prop, path):
     work = tempfile.mkdtemp(prefix='vx_replay_')
     try:
         if g.get('replay') and d.get('inputs') is not None:
+            try:
+                stage(unit, udir, work)
+            except Drift as e:
+                print('UNDECIDED: ' + str(e))
+                return 2
             nat = native_replay(unit, udir, g, d['inputs'], work)
             print(json.dumps(nat, indent=1))
             if nat and nat.get('reproduced'):
@@ -806,7 +811,12 @@ def main(argv):
         if ru['drift']:
             print('DRIFT', ru['drift'])
             return 2
+        seen_why = set()
         for r in ru['groups']:
+            if r['why'] in seen_why and r['why']:
+                print('== %s: %s (same reason)' % (r['group'], r['status']))
+                continue
+            seen_why.add(r['why'])
             print('== %s: %s %s (%.1fs)' % (r['group'], r['status'], r['why'], r['solver_s']))
             for o in r['obligations']:
                 if (o['status'] == 'FAILURE' and o['kind'] != 'vacuity-guard(must fail)') or os.environ.get('VX_VERBOSE'):
